@@ -1117,8 +1117,11 @@ def sort_seq(I, v, key):
     ki, kj = keyof(z3.Select(res.arr, i)), keyof(z3.Select(res.arr, j))
     le = I.lt(ki, kj, False)
     keq = I.eq(ki, kj)
-    p.assume(z3.ForAll([i, j], z3.Implies(z3.And(0 <= i, i < j, j < n), le)))
-    p.assume(z3.ForAll([i, j], z3.Implies(z3.And(0 <= i, i < j, j < n, keq), sg(i) < sg(j))))
+    # `sort_facts=False` on a contract: the order produced by sorted()/sort() is irrelevant to its clauses, only the
+    # permutation facts are assumed (fewer assumptions: sound; keeps string-ordering atoms out of the goals)
+    if getattr(I.cur_contract, "sort_facts", True):
+        p.assume(z3.ForAll([i, j], z3.Implies(z3.And(0 <= i, i < j, j < n), le)))
+        p.assume(z3.ForAll([i, j], z3.Implies(z3.And(0 <= i, i < j, j < n, keq), sg(i) < sg(j))))
     res.perm = (sg, sgi, v)
     return res
 
